@@ -24,6 +24,9 @@ EXPLANATION = (
     'coord_to_index with the axis list of the same axis. C02.6: arguments bound across the reader/loader layers keep '
     'their axis and their min/max kind. C02.7: trace ordinals are il*n_xlines + xl, decomposed with the same radix, '
     'and the diagonal index polynomials have slope n_xlines+1 / n_xlines-1 in the diagonal position.')
+EXPLANATION += (
+    ' ADDED: Arrays assembled block by block (general loaders) are checked too: decoded block (i, x, z) of the file lands at array block (i, x, z), blocks fill the array, and crops of such arrays - and crops of crops (get_trace on the chunk returned by read_subvolume) - select the requested window. C02.5 also decides the translation itself: coord_to_index returns only ordinals found by exact equality with an axis entry (or len(axis) under the include-stop flag and an exact test), never through a tolerance / nearest-neighbour construct, and ends in IndexError otherwise.'
+)
 ASSUMPTIONS = [
     'a fixed-rate ZFP stream of an array stores its 4^d cells in C order, rate*4^d bits each (decoding an assembly of '
     'units equals the cell-by-cell decode)',
